@@ -5170,6 +5170,10 @@ class DfaCompileCtx:
             if next_target is None or next_target.is_fallthrough:
                 continue
 
+            # Nothing may follow an action that returns to the caller (yield) on the same transition: it would never run
+            if any(x.may_return_early() for x in transition.actions):
+                continue
+
             # Are there actions? If so, does this violate the threshold
             if len(next_target.actions) > 0:
                 max_count = ProgramData.option(ProgramOption.MAX_SHORTCIRCUIT_FALLTHROUGH) - ProgramData.option(ProgramOption.MAX_SHORTCIRCUIT_ACTION_PENALTY)*(len(next_target.actions)-1)
@@ -5205,6 +5209,10 @@ class DfaCompileCtx:
             to_replace = transition.target.transitions[0]
 
             if not to_replace.is_fallthrough:
+                continue
+
+            # Nothing may follow an action that returns to the caller (yield) on the same transition: it would never run
+            if any(x.may_return_early() for x in transition.actions):
                 continue
 
             if len(to_replace.actions) > 0:
